@@ -54,7 +54,28 @@ func c17Zoo() []zooEntry {
 		{"map[string]interface{}", map[string]interface{}{"x": e(1, "a"), "y": nil, "z": map[string]interface{}{"A": 1, "s": "q", "L": []int{1}}}},
 		{"map[string]map", map[string]map[string]int{"x": {"A": 1}, "y": {"A": 2}, "z": nil}},
 		{"[]int", []int{1, 2, 1}}, {"[]string", []string{"a", "b"}},
+		{"aliased-pointers", c17Aliased()}, {"aliased-pointers-map", c17AliasedMap()},
+		{"empty-with-capacity", make([]c17Elem, 0, 4)}, {"empty-named-slice", c17Slice{}}, {"nil-named-map", c17Map(nil)},
 	}
+}
+
+// two pointers of different types with the same address (a struct and its
+// first field): an outcome memoised by bare address would confuse them.
+type c17Inner struct{ A int }
+type c17Outer struct {
+	Inner c17Inner
+	A     int
+}
+
+func c17Aliased() []interface{} {
+	o := &c17Outer{Inner: c17Inner{A: 1}, A: 2}
+	p := &c17Outer{Inner: c17Inner{A: 2}, A: 1}
+	return []interface{}{o, &o.Inner, &p.Inner, p, &o.Inner}
+}
+
+func c17AliasedMap() map[string]interface{} {
+	o := &c17Outer{Inner: c17Inner{A: 1}, A: 2}
+	return map[string]interface{}{"outer": o, "inner": &o.Inner, "other": &c17Outer{A: 1}}
 }
 
 var c17ZooExprs = []string{`A == 1`, `A != 1`, `A == 2 or s == "a"`, `not (A == 1)`, `s == "a"`, `s != ""`, `L is empty`, `L is not empty`, `1 in L`, `A == 1 and L is empty`, `A == x`, `s matches "^[ab]$"`,
@@ -184,6 +205,22 @@ func c17Check(c *mon.Ctx, text string, in interface{}, cname string, describe fu
 		c.Violation("C17 selection-differs container="+cname, "Execute did not return exactly the elements for which Evaluate is true (in order)", dd)
 		return
 	}
+	// a NEW container: it must not be the input itself, also when nothing
+	// (or everything) was kept and also for empty inputs
+	switch rv.Kind() {
+	case reflect.Map:
+		if !rv.IsNil() && out.Pointer() == rv.Pointer() {
+			c.Violation("C17 result-is-the-input container="+cname, "Execute returned its input map instead of a new map", d())
+			return
+		}
+		c.Count("aliasing_checked")
+	case reflect.Slice:
+		if rv.Cap() > 0 && out.Cap() > 0 && out.Pointer() == rv.Pointer() {
+			c.Violation("C17 result-is-the-input container="+cname, "Execute returned a slice that shares its backing array with the input", d())
+			return
+		}
+		c.Count("aliasing_checked")
+	}
 	c.Count("outcome:selected")
 	c.Count(fmt.Sprintf("kept:%d-of-%d", min(len(keep), 3), min(len(elems), 3)))
 	c.Count("container:" + rv.Kind().String())
@@ -258,6 +295,29 @@ func c17Run(c *mon.Ctx, idx int) {
 			c.Violation("C17 panic input="+z.Name+" non-container", "a non-container input is not reported as an error with a nil result", map[string]any{"input": z.Name, "panic": x.panic, "error": fmt.Sprint(x.err), "result": fmt.Sprintf("%#v", x.out)})
 		}
 		c.Count("non_containers")
+		// one Filter used on a sequence of containers of different types
+		// must behave like a fresh filter on each
+		for _, ftext := range []string{`A == 1`, `A != 5`, `s == "a"`} {
+			used, _ := bexpr.CreateFilter(ftext)
+			zoo := c17Zoo()
+			order := c.RNG(idx).Perm(len(zoo))
+			for _, zi := range order {
+				in := zoo[zi]
+				fresh, _ := bexpr.CreateFilter(ftext)
+				xu, xf := execute(used, in.Val), execute(fresh, in.Val)
+				c.Evals(2)
+				same := xu.panic == xf.panic && (xu.err == nil) == (xf.err == nil)
+				if same && xu.err == nil && xu.panic == "" {
+					same = reflect.TypeOf(xu.out) == reflect.TypeOf(xf.out) && reflect.DeepEqual(xu.out, xf.out)
+				}
+				if !same {
+					c.Violation("C17 filter-history-dependent container="+in.Name, "a Filter used on other containers before behaves differently from a fresh one", map[string]any{"expression": ftext, "container": in.Name,
+						"used": fmt.Sprintf("%T %#v err=%v panic=%s", xu.out, xu.out, xu.err, xu.panic), "fresh": fmt.Sprintf("%T %#v err=%v panic=%s", xf.out, xf.out, xf.err, xf.panic)})
+					break
+				}
+				c.Count("filter_history_steps")
+			}
+		}
 		// nil filter returns its input unchanged
 		var nf *bexpr.Filter
 		nf, err := bexpr.CreateFilter("")
@@ -332,7 +392,7 @@ func init() {
 		Run:         c17Run,
 		Required: func(tier string) []string {
 			return []string{"zoo_containers", "non_containers", "nil_filter_identity_checked", "random_containers", "outcome:error", "outcome:selected", "container:slice", "container:array", "container:map", "named_slice_type_checked",
-				"storage_independence_checked", "idempotence_checked", "partition_checked", "kept:0-of-3", "kept:1-of-3", "kept:2-of-3", "kept:3-of-3"}
+				"storage_independence_checked", "aliasing_checked", "filter_history_steps", "idempotence_checked", "partition_checked", "kept:0-of-3", "kept:1-of-3", "kept:2-of-3", "kept:3-of-3"}
 		},
 	})
 }
